@@ -26,11 +26,11 @@ MANIFEST = {
     "text": "decides D1 (every documented member compiles when used - a type-checking property, discharged by a "
             "generated witness TU under g++ and clang++, STL and ASCON_NO_STL), D2 (wrapper methods forward to "
             "the C functions of their own algorithm with same-role arguments), D2s (members that receive a sized "
-            "container forward its bytes together with its own size(), on the IR of the instantiation witness and "
-            "of the library's C++ units) and D3 (every keying path defines the whole key and nonce; the "
-            "zero-length set_key path never reads the caller's pointer; key copies have the member's size); "
-            "equality of run-time outputs follows from D2/D2s/D3 and the C-level checks and is not decided "
-            "separately",
+            "container forward its bytes together with its own size()), D3 (every keying path defines the whole "
+            "key and nonce; the zero-length set_key path never reads the caller's pointer; key copies have the "
+            "member's size) and D4 (the C++ units keep no mutable static state, so results do not depend on "
+            "object history); equality of run-time outputs follows from these and the C-level checks and is not "
+            "decided separately",
     "note": "trusted: asconfacts member enumeration (type-checked AST), the two compilers as the definition "
             "of 'compiles', irdump; the witness covers the members that exist in the headers on the run",
     "technique": "generated compile-pass/compile-fail witnesses from AST facts; provenance and must-define "
